@@ -5,7 +5,7 @@
 //! Protocol (text lines on the protocol fd, fields separated by TAB):
 //!   READY
 //!   START <n>
-//!   DONE <n> ok|err|panic <max_req> <cum> <peak_live> <micros> <message>
+//!   DONE <n> ok|err|panic <max_req> <cum> <peak_live> <micros> <post-parse ops> <message>
 //!   ALLOC <size> <single|total> <site>            (followed by _exit(97))
 
 use crate::alloc::{self, PROTO_FD};
@@ -58,11 +58,17 @@ fn install_panic_hook() {
         };
         let func = {
             let mut cache = SITE_CACHE.lock().unwrap_or_else(std::sync::PoisonError::into_inner);
-            if let Some(hit) = cache.iter().find(|(f, l, c, _)| *f == file && *l == line && *c == col) {
+            // only a location inside the repository identifies its function; a location in the
+            // standard library (iterator sum, slice index …) is shared by many callers, so the
+            // backtrace is walked every time for those
+            let in_repo = alloc::repo_relative(&file).is_some();
+            if let Some(hit) = cache.iter().find(|(f, l, c, _)| in_repo && *f == file && *l == line && *c == col) {
                 hit.3.clone()
             } else {
                 let f = alloc::first_repo_frame(Some(&file));
-                cache.push((file.clone(), line, col, f.clone()));
+                if in_repo {
+                    cache.push((file.clone(), line, col, f.clone()));
+                }
                 f
             }
         };
@@ -121,6 +127,7 @@ pub fn worker_main(dir: &str, targets: &[Target]) -> ! {
         proto(&format!("START\t{n}\n"));
         *LAST_PANIC.lock().unwrap_or_else(std::sync::PoisonError::into_inner) = None;
         alloc::reset_counters();
+        crate::entrypoints::OPS.store(0, Relaxed);
         let t0 = std::time::Instant::now();
         let res = {
             let call = Call { input: &input, aux: &aux, flags, dir: &dir, rt: &rt };
@@ -140,7 +147,8 @@ pub fn worker_main(dir: &str, targets: &[Target]) -> ! {
                 }
             }
         };
-        proto(&format!("DONE\t{n}\t{class}\t{max_req}\t{cum}\t{peak}\t{micros}\t{msg}\n"));
+        let ops = crate::entrypoints::OPS.load(Relaxed);
+        proto(&format!("DONE\t{n}\t{class}\t{max_req}\t{cum}\t{peak}\t{micros}\t{ops}\t{msg}\n"));
     }
     std::process::exit(0);
 }
